@@ -26,33 +26,49 @@ use crate::algorithms::{ops::sbb, DoubleWord};
 pub fn addmul(mut lhs: &mut [u64], mut a: &[u64], mut b: &[u64]) -> bool {
     // Trim zeros from `a`
     while let [0, rest @ ..] = a {
+        #[cfg(feature = "recmo_uint_verif")]
+        crate::verif_hooks::hit(20);
         a = rest;
         if let [_, rest @ ..] = lhs {
             lhs = rest;
         }
     }
     while let [rest @ .., 0] = a {
+        #[cfg(feature = "recmo_uint_verif")]
+        crate::verif_hooks::hit(21);
         a = rest;
     }
 
     // Trim zeros from `b`
     while let [0, rest @ ..] = b {
+        #[cfg(feature = "recmo_uint_verif")]
+        crate::verif_hooks::hit(22);
         b = rest;
         if let [_, rest @ ..] = lhs {
             lhs = rest;
         }
     }
     while let [rest @ .., 0] = b {
+        #[cfg(feature = "recmo_uint_verif")]
+        crate::verif_hooks::hit(23);
         b = rest;
     }
 
     if a.is_empty() || b.is_empty() {
+        #[cfg(feature = "recmo_uint_verif")]
+        crate::verif_hooks::hit(24);
         return false;
     }
     if lhs.is_empty() {
+        #[cfg(feature = "recmo_uint_verif")]
+        crate::verif_hooks::hit(25);
         return true;
     }
 
+    #[cfg(feature = "recmo_uint_verif")]
+    if b.len() > a.len() {
+        crate::verif_hooks::hit(26);
+    }
     let (a, b) = if b.len() > a.len() { (b, a) } else { (a, b) };
 
     // Iterate over limbs of `b` and add partial products to `lhs`.
@@ -62,10 +78,18 @@ pub fn addmul(mut lhs: &mut [u64], mut a: &[u64], mut b: &[u64]) -> bool {
             let (target, rest) = lhs.split_at_mut(a.len());
             let carry = addmul_nx1(target, a, b);
             let carry = add_nx1(rest, carry);
+            #[cfg(feature = "recmo_uint_verif")]
+            if carry != 0 {
+                crate::verif_hooks::hit(27);
+            }
             overflow |= carry != 0;
         } else {
+            #[cfg(feature = "recmo_uint_verif")]
+            crate::verif_hooks::hit(28);
             overflow = true;
             if lhs.is_empty() {
+                #[cfg(feature = "recmo_uint_verif")]
+                crate::verif_hooks::hit(29);
                 break;
             }
             addmul_nx1(lhs, &a[..lhs.len()], b);
@@ -99,6 +123,10 @@ pub fn add_nx1(lhs: &mut [u64], mut a: u64) -> u64 {
 pub fn addmul_n(lhs: &mut [u64], a: &[u64], b: &[u64]) {
     assert_eq!(lhs.len(), a.len());
     assert_eq!(lhs.len(), b.len());
+    #[cfg(feature = "recmo_uint_verif")]
+    if lhs.len() > 4 {
+        crate::verif_hooks::hit(159);
+    }
     match lhs.len() {
         0 => {}
         1 => addmul_1(lhs, a, b),
